@@ -1,6 +1,6 @@
 (* C18 — card identity is a fixed function of the data the terminal reports.  Statements only. *)
 From Zvt Require Import Base Length Cp437 Encoding Codec Lookup Client ClientProps.
-From Zvt Require Import ClientLog.
+From Zvt Require Import ClientLog ClientWire.
 Open Scope N_scope.
 
 (* the canonical membership id: upper case; longer than 14 digits -> the last 14, a leading 000000 of
@@ -63,3 +63,13 @@ Print Assumptions C18_bank_if_listed.
 Print Assumptions C18_listed_never_membership.
 Print Assumptions C18_membership_canonical.
 Print Assumptions C18_timeout_is_no_card.
+
+(* the request that asks for the card, down to the wire: read_card made while a connection is in use first writes a ReadCard
+   request that its layout reads back as the configured timeout, card type 0x10, dialog control 2 and the TLV
+   { reading control 0xD0, card type 7 } — for every timeout 0..255 *)
+Theorem C18_read_card_request : forall cfg w id, w_cur w = Some id -> c_read_card_timeout cfg < 256 ->
+  exists req : list N, req <> nil /\
+    first_new_event w (snd (read_card cfg w)) (EWrite id (w_now w) req) /\
+    forall r, dec_cmd FUEL (cmd_of "zvt::packets::ReadCard") (req ++ r) = Ok (read_card_value (c_read_card_timeout cfg), r).
+Proof. exact read_card_sends_the_configured_timeout. Qed.
+Print Assumptions C18_read_card_request.
